@@ -90,6 +90,7 @@ struct vk_cfg {
   int sched_on, sched_bound;
   int faults_on, fault_bound;
   int time_on, time_bound, time_jump;
+  int total_bound;     /* if > 0: cap on scheduling + fault + clock deviations together */
   int vlimit;          /* virtual RLIMIT_NOFILE (soft) reported to the library */
   int elapsed_inf_n;   /* elapsed menu while blocked without OS timeout */
   int elapsed_inf[4];
